@@ -412,7 +412,11 @@ func (r ReferenceStorage) CheckAndSetReference(ref, old *plumbing.Reference) err
 
 	if old != nil {
 		tmp := r[ref.Name()]
-		if tmp != nil && tmp.Hash() != old.Hash() {
+		if tmp == nil {
+			// nothing to compare with: like the filesystem storage, refuse
+			return plumbing.ErrReferenceNotFound
+		}
+		if tmp.Hash() != old.Hash() {
 			return storage.ErrReferenceHasChanged
 		}
 	}
